@@ -239,3 +239,77 @@ def np_triu_indices(ex, args, kwargs, node, st):
         st.heap[oid] = ArrObj('int', arr=arr, length=ln, pykind='ndarray', dtype='int')
         out.append(Ref(oid))
     return tuple(out)
+
+
+# ------------------------------------------------------------------ C library (A3 / A6)
+@lib('c.malloc')
+def c_malloc(ex, args, kwargs, node, st):
+    """malloc(bytes): a fresh block (A6: allocation succeeds); typed by the enclosing cast."""
+    nbytes = args[0]
+    oid = st.new_oid('H')
+    st.heap[oid] = ArrObj('raw', length=nbytes, pykind='cblock', name='malloc@%s' % getattr(node, 'lineno', '?'))
+    return Ptr(oid, 0)
+
+
+@lib('c.free')
+def c_free(ex, args, kwargs, node, st):
+    p = args[0]
+    if isinstance(p, Ptr) and p.oid is not None:
+        o = st.heap[p.oid].clone()
+        if getattr(st.heap[p.oid], 'freed', False):
+            ex.oblige('double-free', False, st, node, 'double free')
+        o.freed = True
+        st.heap[p.oid] = o
+    return None
+
+
+@lib('c.sqrt')
+def c_sqrt(ex, args, kwargs, node, st):
+    return math_sqrt(ex, args, kwargs, node, st)
+
+
+@lib('c.pow')
+def c_pow(ex, args, kwargs, node, st):
+    a, b = args
+    if concrete(a) and concrete(b):
+        return float(a) ** float(b)
+    return vpow(vlit(a), vlit(b))
+
+
+@lib('c.fabs')
+def c_fabs(ex, args, kwargs, node, st):
+    return num_abs(vlit(args[0]) if not concrete(args[0]) else float(args[0]))
+
+
+LIB['c.__builtin_fabs'] = c_fabs
+
+
+@lib('c.exp')
+def c_exp(ex, args, kwargs, node, st):
+    return np_exp(ex, args, kwargs, node, st)
+
+
+@lib('c.__builtin_inff')
+def c_inf(ex, args, kwargs, node, st):
+    return float('inf')
+
+
+LIB['c.__builtin_inf'] = c_inf
+LIB['c.__builtin_huge_valf'] = c_inf
+
+
+@lib('c.__assert_fail')
+def c_assert_fail(ex, args, kwargs, node, st):
+    """assert(): release builds compile it out, here it must be *proved* (DESIGN 3.1)."""
+    ex.oblige('assert', False, st, node, 'C assert(%s)' % (args[0] if args and isinstance(args[0], str) else ''))
+    if not ex.guards:
+        raise PathEnd()
+    return None
+
+
+def _noop(ex, args, kwargs, node, st):
+    return 0
+
+
+for _n in ('printf', 'fflush', 'signal', 'fprintf'):
+    LIB['c.' + _n] = _noop
